@@ -33,6 +33,9 @@ def run(P, R, L):
              "(otherwise the output overlaps a remaining parent-level file: the version builder's assertion kills the compaction thread)")
     K.pair9_boundary_inputs(P, R, L)
     K.pair9_levels(P, R, L)
+    R.clause("ORD-13", "a table that the reported shape lists exists: the outputs of a running compaction stay registered (protected from the collector) until they are installed")
+    from .c11 import ord13
+    ord13(P, R, L)
     R.clause("LVL-1", "every loop over the levels visits the deepest level too (new versions, manifest snapshots)")
     K.lvl1_level_loops_cover_all_levels(P, R, L)
     K.bundle_no_assertion_trips(P, R, L)
